@@ -493,3 +493,55 @@ PROPS['C13'] = dict(
                  'makes the slice fail to compile -> UNDECIDED, not a silent pass)'] + ENC_ASSUME[:1],
     trusted=['spec/device_feat.py'],
 )
+
+
+# ------------------------------------------------------------------------------------------------ C10
+def witnesses_c10(tier, seed):
+    cases = [
+        ('label_case', 'Start: nop\n rjmp START\n rjmp start\n', dict(code='0000fecffdcf')),
+        ('forward_label', ' rjmp fwd\n nop\nfwd: nop\n', dict(code='01c000000000')),
+        ('equ_case_forward', ' ldi r16, Val\n.equ VAL = 7\n', dict(code='07e0')),
+        ('set_sequential', '.set n = 1\n.db n, 0\n.set N = n + 1\n.db N, 0\n', dict(code='01000200')),
+        ('def_alias_equiv', '.def Tmp = r17\n ldi tmp, 3\n ldi r17, 3\n', dict(code='13e013e0')),
+        ('undef_then_use_fails', '.def tmp = r17\n.undef TMP\n ldi tmp, 3\n', 'error'),
+        ('undefined_in_instruction', ' ldi r16, nosuch\n', 'error'),
+        ('undefined_in_data', '.dw nosuch\n', 'error'),
+        ('undefined_in_set', '.set a = nosuch\n', 'error'),
+        ('duplicate_label', 'a: nop\na: nop\n', 'error'),
+        ('duplicate_label_case', 'a: nop\nA: nop\n', 'error'),
+        ('duplicate_label_other_segment', 'a: nop\n.dseg\na: .byte 1\n', 'error'),
+        ('set_before_definition_fails', '.db later, 0\n.set later = 3\n', 'error'),
+        ('undef_unknown_fails', '.undef nothing\n', 'error'),
+        ('label_value_not_zero', ' nop\n nop\nl: .dw l\n', dict(code='000000000200')),
+        ('equ_chain', '.equ a = b + 1\n.equ b = 2\n.db a, b\n', dict(code='0302')),
+    ]
+    res = replay.run_jobs(['build\n' + c[1] for c in cases])
+    out = []
+    for (name, src, exp), r in zip(cases, res):
+        ok = (r.get('status') == 'err') if exp == 'error' else (r.get('status') == 'ok' and all(r.get(k) == v for k, v in exp.items()))
+        out.append(WitnessResult(name, 'build\n' + src, ok, dict((k, r.get(k)) for k in ('status', 'code', 'err')), exp, 'symbols/'))
+    return out
+
+
+PROPS['C10'] = dict(
+    level_text='Proof (Verus, unbounded): context.rs verbatim: every lookup of labels/.equ/.set/.def/special depends on the name only through '
+               'lower(name) and returns what the setter stored; get_expr order and None iff unbound everywhere; exist; set_def. '
+               'Expr::run on an identifier follows get_expr and is Err(MissingIdentifier) when unbound (unit EXPR); pass 1 binds each label '
+               'to its address exactly once and fails on any rebinding (unit PASS1, derived lemmas labels_distinct/label_value); pass 2 '
+               'applies .set/.def/.undef in source order under lower-cased names, failing on unknown .undef, undefined .set operand, '
+               'non-register .def (fold oracle of unit PASS2); get_r8 resolves an alias to exactly the bound register (ENCV + Kani ENC '
+               'alias shapes).',
+    level_note='lower() is uninterpreted (idempotent); that the grammar lower-cases label names and that .equ is stored at parse time '
+               '(Directive::Equ) are outside the units: witnesses only',
+    technique='Verus contracts on the extracted table getters/setters (R9 table view) + the fold/recursive oracles of EXPR, PASS1, PASS2',
+    verus=['ctxu', 'expr', 'pass1', 'pass2', 'encv'],
+    witnesses=witnesses_c10,
+    functions=['context::{CommonContext getters/setters, Context::get_expr, Context::exist}', 'Expr::run (Ident arm)', 'pass_1_internal (Label arm)',
+               'pass_2_internal (Set/Def/Undef arms)', 'InstructionOps::get_r8'],
+    explanation='lookup()/exists_name() in contracts/ctxu.vspec are the binding rules of the property; the same definitions are the stubs used by PASS2.',
+    assumptions=['R9: Rc<RefCell<HashMap<String,V>>> is a table with a ghost map view; tab_get/tab_insert state HashMap::get+clone / insert',
+                 'str::to_lowercase is the uninterpreted idempotent lower(); HashMap behaves as a map',
+                 'label() of the grammar lower-cases label names (set_label stores the name as given); Directive::Equ stores at parse time',
+                 'trait Context has a single implementor: default methods verified as inherent methods (R3)'],
+    bounded=['16 fixed symbol programs through build_str (letter case, forward references, redefinition, deletion, duplication)'],
+)
